@@ -444,7 +444,7 @@ theorem declInj_keeps (w : World) (hwf : WellFormed w.facts w.v2) :
     WalkName.Keeps w (fun u => WalkDesc.Full w.bt w.facts w.v2 u ∧ DeclInj u) where
   same := fun u u' ho ht hb hd hf hv hc h => ⟨full_of_same ho ht hb hd h.1,
     declInj_of_idx (u := u) (fun d => by cases d; exact hf; exact hv; exact hc) h.2⟩
-  add := fun u ob u' h hf => ⟨addObj_full w.facts w.v2 hwf w.fuel u ob u' h.1 hf, addObj_declInj w.facts w.v2 w.fuel u ob u' h.1.1 h.2 hf⟩
+  add := fun u ob u' _ h hf => ⟨addObj_full w.facts w.v2 hwf w.fuel u ob u' h.1 hf, addObj_declInj w.facts w.v2 w.fuel u ob u' h.1.1 h.2 hf⟩
 
 /-- **requested_packages_complete_v1**: `FindTypes` over any request list, then any sequence of `AddDirTo`, then the scan of
 one more requested package `p`: the package is complete in the resulting universe – whatever had been loaded before -/
@@ -461,6 +461,101 @@ theorem requested_packages_complete_v1 (w : World) (hwf : WellFormed w.facts w.v
     (fun s q s' hs hv => k.addDirToV1 s s' q hs hv) ps a st ha h2
   rw [hfuel] at hf
   exact requested_package_is_complete w.facts w.v2 hwf fuel st.u u' p hst.1 hst.2 hnd hf
+
+/-! ### … and in v2, where the scan of a package is interleaved with the visits of its imports -/
+
+/-- a declaration key determines the declaration, in the whole world (Go: one object per package-scope name) -/
+def DeclsFunctional (w : World) : Prop :=
+  ∀ p1 ∈ w.pkgs, ∀ p2 ∈ w.pkgs, ∀ ob1 ∈ p1.scope, ∀ ob2 ∈ p2.scope, ∀ k,
+    declKey w.v2 ob1 = some k → declKey w.v2 ob2 = some k → ob1.ty = ob2.ty ∧ declVal ob1 = declVal ob2
+
+/-- package `p` is complete in `u` -/
+def CompleteFor (w : World) (p : GPkg) (u : U) : Prop :=
+  WalkDesc.Full w.bt w.facts w.v2 u ∧ DeclInj u ∧
+  (∀ ob ∈ p.scope, C01.PlainNamed w.facts w.v2 ob → C01.Present w.facts w.v2 u ob) ∧
+  (∀ ob ∈ p.scope, ∀ (d : Decl) (n : Name), declKey w.v2 ob = some (d, n) → Recorded w.facts w.v2 u d n ob.ty (declVal ob))
+
+theorem present_same {F : Facts} {v2 : Bool} {u u' : U} {ob : GObj} (ho : u'.objs = u.objs) (ht : u'.types = u.types)
+    (h : C01.Present F v2 u ob) : C01.Present F v2 u' ob := by
+  obtain ⟨o, t, h1, h2, h3⟩ := h
+  exact ⟨o, t, by rw [ht]; exact h1, by rw [ho]; exact h2, h3⟩
+
+/-- once complete, a package stays complete through everything any loader does afterwards -/
+theorem completeFor_keeps (w : World) (hwf : WellFormed w.facts w.v2) (hfun : DeclsFunctional w) (p : GPkg) (hp : p ∈ w.pkgs) :
+    WalkName.Keeps w (CompleteFor w p) where
+  same := fun u u' ho ht hb hd hf hv hc h => ⟨full_of_same ho ht hb hd h.1,
+    declInj_of_idx (u := u) (fun d => by cases d; exact hf; exact hv; exact hc) h.2.1,
+    fun ob hob hpn => present_same ho ht (h.2.2.1 ob hob hpn),
+    fun ob hob d n hk => (h.2.2.2 ob hob d n hk).same ho ht hf hv hc⟩
+  add := fun u ob' u' hmem h hadd => by
+    obtain ⟨p', hp', hob'⟩ := hmem
+    refine ⟨addObj_full w.facts w.v2 hwf w.fuel u ob' u' h.1 hadd, addObj_declInj w.facts w.v2 w.fuel u ob' u' h.1.1 h.2.1 hadd,
+      fun ob hob hpn => (h.2.2.1 ob hob hpn).mono (WalkInv.addObj_inv w.facts w.v2 w.fuel u ob' u' h.1.1 hadd).2, ?_⟩
+    intro ob hob d n hk
+    by_cases hsame : declKey w.v2 ob' = some (d, n)
+    · -- the same declaration added again: recorded afresh, with the same type and value
+      obtain ⟨e1, e2⟩ := hfun p' hp' p hp ob' hob' ob hob (d, n) hsame hk
+      have := addObj_records w.facts w.v2 hwf w.fuel u ob' u' h.1 hadd d n hsame
+      rw [e1, e2] at this
+      exact this
+    · exact addObj_keeps_recorded w.facts w.v2 hwf w.fuel u ob' u' h.1 h.2.1 hadd hsame (h.2.2.2 ob hob d n hk)
+
+theorem addObjs_declInj {bt : List Builtin} (F : Facts) (v2 : Bool) (hwf : WellFormed F v2) (fuel : Nat) :
+    ∀ (obs : List GObj) (u u' : U), WalkDesc.Full bt F v2 u → DeclInj u → addObjs bt F v2 fuel u obs = some u' →
+      WalkDesc.Full bt F v2 u' ∧ DeclInj u' := by
+  intro obs
+  induction obs with
+  | nil => intro u u' h hi hf; simp only [addObjs, Option.some.injEq] at hf; subst hf; exact ⟨h, hi⟩
+  | cons x rest ih =>
+    intro u u' h hi hf
+    simp only [addObjs] at hf
+    cases ha : addObj bt F v2 fuel u x with
+    | none => simp [ha] at hf
+    | some u1 =>
+      simp only [ha] at hf
+      exact ih u1 u' (addObj_full F v2 hwf fuel u x u1 h ha) (addObj_declInj F v2 fuel u x u1 h.1 hi ha) hf
+
+/-- **requested_package_complete_v2**: when `addPkgToUniverse` visits a requested package that has not been processed yet,
+the package is complete afterwards – every named type of its scope registered with a kind, every function, variable and
+constant recorded with its type and value – although the visits of all its imports (and theirs) run in between -/
+theorem requested_package_complete_v2 (w : World) (hwf : WellFormed w.facts w.v2) (hfun : DeclsFunctional w)
+    (fuel : Nat) (hfuel : w.fuel = fuel + 1) (n : Nat) (st st' : LState) (path : Str) (p : GPkg)
+    (hfind : w.find path = some p) (hnp : st.processed.contains path = false) (hreq : st.requested.contains path = true)
+    (hfull : WalkDesc.Full w.bt w.facts w.v2 st.u) (hinj : DeclInj st.u) (hnd : (p.scope.filterMap (declKey w.v2)).Nodup)
+    (h : visitV2 w (n + 1) st path = some st') : CompleteFor w p st'.u := by
+  have hp := WalkName.World.find_mem hfind
+  have k := completeFor_keeps w hwf hfun p hp
+  simp only [visitV2, hnp, Bool.false_eq_true, if_false, hfind, hreq, Bool.not_true] at h
+  obtain ⟨a, b, c, d⟩ := WalkInv.package_objs st.u path
+  obtain ⟨pf, pv, pc⟩ := WalkName.package_idx st.u path
+  have f1 := full_of_same a b c d hfull
+  have i1 : DeclInj (st.u.package path) := declInj_of_idx (u := st.u) (fun dd => by cases dd; exact pf; exact pv; exact pc) hinj
+  obtain ⟨a2, b2, c2, d2⟩ := WalkInv.package_objs (st.u.package path) p.path
+  obtain ⟨pf2, pv2, pc2⟩ := WalkName.package_idx (st.u.package path) p.path
+  have f2 := full_of_same (u' := ((st.u.package path).package p.path).setPkg p.path (fun r => { r with name := p.name })) a2 b2 c2 d2 f1
+  have i2 : DeclInj (((st.u.package path).package p.path).setPkg p.path (fun r => { r with name := p.name })) :=
+    declInj_of_idx (u := st.u.package path) (fun dd => by cases dd; exact pf2; exact pv2; exact pc2) i1
+  cases ha : addObjs w.bt w.facts w.v2 w.fuel (((st.u.package path).package p.path).setPkg p.path (fun r => { r with name := p.name })) p.scope with
+  | none => simp [ha] at h
+  | some u3 =>
+    simp only [ha] at h
+    obtain ⟨f3, i3⟩ := addObjs_declInj w.facts w.v2 hwf w.fuel _ _ u3 f2 i2 ha
+    have hc3 : CompleteFor w p u3 := by
+      refine ⟨f3, i3, ?_, addObjs_records w.facts w.v2 hwf w.fuel p.scope _ u3 f2 i2 hnd ha⟩
+      have ha' := ha
+      rw [hfuel] at ha'
+      exact C01.addObjs_present w.bt w.facts w.v2 fuel p.scope _ u3 f2.1 ha'
+    generalize hst3 : ({ u := u3, requested := st.requested, processed := st.processed ++ [path] } : LState) = st3 at h
+    cases hfold : p.imports.foldl (fun acc i => acc.bind (fun s => visitV2 w n s i)) (some st3) with
+    | none => simp [hfold] at h
+    | some st4 =>
+      simp only [hfold, Option.some.injEq] at h
+      subst h
+      have h4 := WalkInv.foldl_bind_inv (fun s i => visitV2 w n s i) (fun s => CompleteFor w p s.u)
+        (fun s i s' hs hv => k.visitV2 n s s' i hs hv) p.imports st3 st4 (by subst hst3; exact hc3) hfold
+      obtain ⟨a5, b5, c5, d5⟩ := WalkInv.addImports_same st4.u p.path (p.imports.mergeSort Str.le)
+      obtain ⟨af, av, ac⟩ := WalkName.addImports_idx st4.u p.path (p.imports.mergeSort Str.le)
+      exact k.same _ _ a5 b5 c5 d5 af av ac h4
 
 /-! non-vacuity: walking the cyclic demo program (`type T struct{ Next *T }`) from `T` and from `*T` gives universes that
 number their objects differently – `p.T` is object 0 in the one and object 1 in the other – so the correspondence of
